@@ -6,7 +6,7 @@ CHECK = {'level': 'model_checking',
          'delete, delete v1, undelete v1, destroy v1, metadata max_versions=1, metadata cas_required} on one secret '
          'path, all interleavings at storage-op granularity up to the preemption bound, linearizability decided by '
          'brute force over all real-time-consistent sequential orders (reference = the engine run sequentially on a '
-         'fresh Core). H: all sequential histories to depth 3/4 vs an independent versioned-register model. F: every '
+         'fresh Core). H: all sequential histories to depth 3/4 vs an independent versioned-register model. M: every history (depth 3/4 from the fresh secret, depth 2/3 from 4 pre-states: secret limit below mount limit at the limit; mount limit with one pruned and one deleted version; deleted + destroyed + live versions; removed secret under a cas_required mount) over 20 operations (put, put with current / stale cas, patch, patch with cas, delete latest, delete / undelete / destroy with version LISTS incl. versions that do not exist or are already deleted, secret and mount max_versions, secret and mount cas_required, removal of the secret) against a full independent model (pruning by the larger of the two limits, exact cas, per-version flags); after every step every version 1..8, the current version and the whole metadata are compared. F: every '
          'single storage failure in each write-type call, transactional and non-transactional storage; non-trivial = '
          'distinct (scenario, observations, final state)',
  'assumptions': ['sequential reference for S is the implementation itself; sequential semantics are judged separately '
